@@ -16,6 +16,23 @@
 (*  "mm":  X += alpha D B            (add_mat_mat_product)                  *)
 (*  "dvm": X += alpha D diag(a) B    (add_double_mat_product, vector a)     *)
 (*  "dmm": X += alpha D A B          (add_double_mat_product, matrix A)     *)
+(*  "delem": DenseMatrix X and Y of the same shape: axpy, scale (also Y==X),  *)
+(*      norm_frobenius (the Arch::Axpy / Scale / Norm2 kernels over the     *)
+(*      row-major array of rows*columns elements)                           *)
+(*  "dmul": the dense matrix products  DenseMatrix::multiply  onto a result *)
+(*      matrix X WITH PRIOR CONTENTS (so that "beta * old", "not written"   *)
+(*      and "overwritten" are three different post-states):                 *)
+(*        multiply_dd     X <- x y                  x dense, y dense        *)
+(*        multiply_sd     X <- x y                  x CSR,   y dense        *)
+(*        multiply_ddz    X <- alpha x y + beta z   x dense; z = Y or z = X *)
+(*        multiply_sd_ab  X <- alpha x y + beta X   x CSR                   *)
+(*      x = D (CSR: every sparsity pattern incl. empty rows and the entry-  *)
+(*      free matrix in both of its states; dense: the full pattern), y = B, *)
+(*      z = Y; alpha, beta from {0, 1, -1, 2, -1/2}.  For the two plain     *)
+(*      products the post-state does not depend on the pre-state of X at    *)
+(*      all: call.dirty = TRUE says the prior contents are arbitrary bit    *)
+(*      patterns, non-finite ones included (X(m,n) is not initialised by    *)
+(*      its constructor).                                                   *)
 (* Product outcome rule: let S be the structural pattern of the product.    *)
 (*   S subset Pat(X)                     -> value, X' = X + alpha (product) *)
 (*   otherwise and allow_incomplete      -> value, the same restricted to   *)
@@ -23,17 +40,18 @@
 (*   otherwise and not allow_incomplete  -> the call must be refused        *)
 (*                                          (outcome abort / exception)     *)
 (* Frame: operands and the layout arrays of X are unchanged.                *)
-(* alpha = an/ad dyadic; results are held scaled by `den`.                  *)
+(* alpha = an/ad, beta = bn/bd dyadic; results are held scaled by `den`.     *)
 EXTENDS Storage, Json, TLC
 
 CONSTANTS Fmt,         \* "csr" | "bcsr"
-          Group,       \* "elem" | "mm" | "dvm" | "dmm"
+          Group,       \* "elem" | "mm" | "dvm" | "dmm" | "delem" | "dmul"
           M0, M1, K0, K1, N0, N1,   \* ranges of the (block) dimensions m, k (= l), n
           MaxRow,      \* bound on stored entries per row (pruning; large = none)
           BH, BW,      \* block shape (bcsr)
           Palette,     \* 1 injective non-zero values, 2 values -2..2 with stored zeros and repeats, 3 all negative, 4 all positive
           ArrayLess,   \* TRUE: an entry-free matrix is the dimension-only container (no arrays); FALSE: allocated, 0 entries
-          NAlpha       \* number of alpha values used for the products (2 or 3)
+          NAlpha,      \* number of alpha values used for the products (2 or 3)
+          ABFull       \* "dmul": TRUE all 25 pairs (alpha, beta) from A5 x A5, FALSE a covering set of 7 pairs
 
 VARIABLES ph, X, Y, D, A, B, call, out
 vars == <<ph, X, Y, D, A, B, call, out>>
@@ -70,7 +88,8 @@ RepOf(Mx) == IF Fmt = "bcsr" \/ Mx.bh # 1 \/ Mx.bw # 1
              ELSE CSROf(Mx.mb, Mx.nb, Mx.dense, Mx.pat)
 NoMat == Mat(0, 0, 1, 1, {}, 0)
 
-NoCall == [op |-> "none", an |-> 1, ad |-> 1, self |-> FALSE, allow |-> FALSE, eps |-> 0, s |-> <<>>]
+NoCall == [op |-> "none", an |-> 1, ad |-> 1, bn |-> 1, bd |-> 1, self |-> FALSE, allow |-> FALSE, eps |-> 0, s |-> <<>>, dirty |-> FALSE]
+Full(m, n) == (1..m) \X (1..n)
 NoOut == [outcome |-> "value", X |-> NoMat, den |-> 1, vres |-> <<>>, vkind |-> "none", sres |-> 0, skind |-> "none", mag |-> 0]
 
 Init ==
@@ -84,6 +103,14 @@ Init ==
               \E k \in K0..K1 : \E PX \in Patterns(m, n), PD \in Patterns(m, k), PB \in Patterns(k, n) :
                 /\ X = Mat(m, n, BHx, BWx, PX, 0) /\ D = Mat(m, k, BHx, BWx, PD, 3) /\ B = Mat(k, n, BHx, BWx, PB, 11)
                 /\ Y = NoMat /\ A = NoMat
+         [] Group = "delem" ->
+                /\ X = Mat(m, n, 1, 1, Full(m, n), 0) /\ Y = Mat(m, n, 1, 1, Full(m, n), 7)
+                /\ D = NoMat /\ A = NoMat /\ B = NoMat
+         [] Group = "dmul" ->
+              \* X: the result matrix with its prior contents, D: the left factor x, B: the right factor y, Y: the summand z
+              \E k \in K0..K1 : \E PD \in Patterns(m, k) :
+                /\ X = Mat(m, n, 1, 1, Full(m, n), 0) /\ D = Mat(m, k, 1, 1, PD, 3) /\ B = Mat(k, n, 1, 1, Full(k, n), 11)
+                /\ Y = Mat(m, n, 1, 1, Full(m, n), 7) /\ A = NoMat
          [] Group = "dmm" ->
               \E k \in K0..K1, l \in K0..K1 :
                 \E PX \in Patterns(m, n), PD \in Patterns(m, k), PA \in Patterns(k, l), PB \in Patterns(l, n) :
@@ -101,15 +128,17 @@ SRes(val, kind, mag) == [NoOut EXCEPT !.X = X, !.sres = val, !.skind = kind, !.m
 Alphas6 == {<<0, 1>>, <<1, 1>>, <<-1, 1>>, <<2, 1>>, <<-1, 2>>, <<-5, 2>>}
 PAlphas == IF NAlpha = 2 THEN {<<1, 1>>, <<-2, 1>>} ELSE {<<1, 1>>, <<-2, 1>>, <<-1, 2>>}
 IsElem == ph = "init" /\ Group = "elem"
+\* axpy, scale and norm_frobenius have the same definition for a DenseMatrix (a matrix whose pattern is full)
+IsElemD == ph = "init" /\ Group \in {"elem", "delem"}
 Src(self) == IF self THEN X ELSE Y
 
 (***************************************************************************)
 (* "elem" group                                                             *)
 (***************************************************************************)
-AxpyOp == IsElem /\ \E self \in BOOLEAN, al \in Alphas6 :
+AxpyOp == IsElemD /\ \E self \in BOOLEAN, al \in Alphas6 :
             Fin([NoCall EXCEPT !.op = "axpy", !.an = al[1], !.ad = al[2], !.self = self],
                 WrX(MatAxpy(X.m, X.n, al[1], Src(self).dense, MatScale(X.m, X.n, al[2], X.dense)), al[2]))
-ScaleOp == IsElem /\ \E self \in BOOLEAN, al \in Alphas6 :
+ScaleOp == IsElemD /\ \E self \in BOOLEAN, al \in Alphas6 :
             Fin([NoCall EXCEPT !.op = "scale", !.an = al[1], !.ad = al[2], !.self = self],
                 WrX(MatScale(X.m, X.n, al[1], Src(self).dense), al[2]))
 ScaleRowsOp == IsElem /\ \E self \in BOOLEAN, s \in SVecs(X.m) :
@@ -123,7 +152,7 @@ LumpOp == IsElem /\ Fin([NoCall EXCEPT !.op = "lump_rows"], VRes(RowSums(X), "ex
 DiagOp == IsElem /\ X.mb = X.nb /\ X.bh = X.bw
           /\ Fin([NoCall EXCEPT !.op = "extract_diag"], VRes([i \in 1..X.m |-> X.dense[i][i]], "exact", MaxAbsMat(X)))
 RowSq(Mx) == [i \in 1..Mx.m |-> Norm2Sqr(Mx.dense[i])]
-FrobOp == IsElem /\ Fin([NoCall EXCEPT !.op = "norm_frobenius"], SRes(SumSeq(RowSq(X)), "sqrt", SumSeq(RowSq(X))))
+FrobOp == IsElemD /\ Fin([NoCall EXCEPT !.op = "norm_frobenius"], SRes(SumSeq(RowSq(X)), "sqrt", SumSeq(RowSq(X))))
 RowNormOp == IsElem /\ \E op \in {"row_norm2", "row_norm2sqr"} :
                Fin([NoCall EXCEPT !.op = op], VRes(RowSq(X), IF op = "row_norm2" THEN "sqrt" ELSE "exact", SumSeq(RowSq(X))))
 \* row_norms_i = sum_j scal_j (this_ij)^2   (documented formula; scal lives in the column space)
@@ -179,8 +208,36 @@ DMMOp == ph = "init" /\ Group = "dmm" /\
                     MaxOf(MatMat(D.m, A.n, B.n, AbsMat(D.m, A.n, MatMat(D.m, D.n, A.n, AbsMat(D.m, D.n, D.dense), AbsMat(A.m, A.n, A.dense))),
                                  AbsMat(B.m, B.n, B.dense)), D.m, B.n))
 
+(***************************************************************************)
+(* dense products (DenseMatrix::multiply)                                   *)
+(***************************************************************************)
+A5 == {<<0, 1>>, <<1, 1>>, <<-1, 1>>, <<2, 1>>, <<-1, 2>>}
+\* the reduced set still contains every alpha and every beta of A5, beta = 1 (the default), (1,0) = the plain product, (0,0)
+ABPairs == IF ABFull THEN A5 \X A5
+           ELSE {<<<<1, 1>>, <<1, 1>>>>, <<<<1, 1>>, <<0, 1>>>>, <<<<0, 1>>, <<0, 1>>>>, <<<<2, 1>>, <<-1, 1>>>>,
+                 <<<<-1, 2>>, <<2, 1>>>>, <<<<0, 1>>, <<-1, 2>>>>, <<<<-1, 1>>, <<-1, 2>>>>}
+IsDMul == ph = "init" /\ Group = "dmul"
+XIsDense == D.pat = Full(D.m, D.n)
+DProd == MatMat(D.m, D.n, B.n, D.dense, B.dense)
+DProdAbs == MatMat(D.m, D.n, B.n, AbsMat(D.m, D.n, D.dense), AbsMat(B.m, B.n, B.dense))
+\* X <- x y : every entry of X is overwritten, whatever it held before
+PlainRes == [WrX(DProd, 1) EXCEPT !.mag = MaxOf(DProdAbs, X.m, X.n)]
+\* X <- alpha x y + beta Z, scaled by den = ad * bd
+GenRes(al, be, Z) ==
+  LET sa == al[1] * be[2]  sb == be[1] * al[2]
+  IN [WrX([i \in 1..X.m |-> [j \in 1..X.n |-> sa * DProd[i][j] + sb * Z.dense[i][j]]], al[2] * be[2])
+        EXCEPT !.mag = MaxOf([i \in 1..X.m |-> [j \in 1..X.n |-> Abs(sa) * DProdAbs[i][j] + Abs(sb) * Abs(Z.dense[i][j])]], X.m, X.n)]
+PlainCall(op, dirty) == [NoCall EXCEPT !.op = op, !.bn = 0, !.dirty = dirty]
+GenCall(op, al, be, self) == [NoCall EXCEPT !.op = op, !.an = al[1], !.ad = al[2], !.bn = be[1], !.bd = be[2], !.self = self]
+MulDDOp == IsDMul /\ XIsDense /\ \E dirty \in BOOLEAN : Fin(PlainCall("multiply_dd", dirty), PlainRes)
+MulSDOp == IsDMul /\ \E dirty \in BOOLEAN : Fin(PlainCall("multiply_sd", dirty), PlainRes)
+\* self = TRUE: the summand z is the result matrix itself (allowed: entry (i,j) of z is read once, before (i,j) is written)
+MulDDZOp == IsDMul /\ XIsDense /\ \E ab \in ABPairs, self \in BOOLEAN :
+              Fin(GenCall("multiply_ddz", ab[1], ab[2], self), GenRes(ab[1], ab[2], Src(self)))
+MulSDABOp == IsDMul /\ \E ab \in ABPairs : Fin(GenCall("multiply_sd_ab", ab[1], ab[2], TRUE), GenRes(ab[1], ab[2], X))
+
 Next == AxpyOp \/ ScaleOp \/ ScaleRowsOp \/ ScaleColsOp \/ LumpOp \/ DiagOp \/ FrobOp \/ RowNormOp \/ RowNormScaledOp
-        \/ MaxMinOp \/ ShrinkOp \/ MMOp \/ DVMOp \/ DMMOp
+        \/ MaxMinOp \/ ShrinkOp \/ MMOp \/ DVMOp \/ DMMOp \/ MulDDOp \/ MulSDOp \/ MulDDZOp \/ MulSDABOp
 Spec == Init /\ [][Next]_vars
 
 (***************************************************************************)
@@ -206,13 +263,29 @@ Assoc == ph = "done" /\ call.op = "add_double_mat_product" /\ out.outcome = "val
 \* lumping is the product with the all-ones vector; the Frobenius norm squared is the sum of the row norms squared
 LumpIsMatVec == ph = "done" /\ call.op = "lump_rows" => out.vres = MatVec(X.m, X.n, X.dense, [j \in 1..X.n |-> 1])
 
+\* laws of the dense products: every entry of the result is written; a structurally empty row of x leaves exactly
+\* beta * z in that row (nothing for the plain product); the plain product is the general one with alpha = 1, beta = 0;
+\* (x y)^T = y^T x^T; alpha = 0 leaves beta z; and the result of a plain product does not depend on the prior X
+DMulLaws == ph = "done" /\ Group = "dmul" =>
+  LET Z == Src(call.self \/ call.op # "multiply_ddz")
+      sa == call.an * call.bd  sb == call.bn * call.ad
+      plain == call.op \in {"multiply_dd", "multiply_sd"}
+  IN /\ out.outcome = "value" /\ out.X.pat = Full(X.m, X.n) /\ out.den = call.ad * call.bd
+     /\ \A i \in 1..X.m : (\A j \in 1..D.n : <<i, j>> \notin D.pat) => out.X.dense[i] = Scale(sb, Z.dense[i])
+     /\ (plain => sb = 0 /\ sa = 1 /\ out.den = 1 /\ out.X.dense = DProd /\ out = GenRes(<<1, 1>>, <<0, 1>>, Y))
+     /\ (~plain => ~call.dirty)
+     /\ (sa = 0 => out.X.dense = MatScale(X.m, X.n, sb, Z.dense))
+     /\ Transpose(X.m, X.n, MatAxpy(X.m, X.n, -sb, Z.dense, out.X.dense))
+          = MatScale(X.n, X.m, sa, MatMat(B.n, B.m, D.m, Transpose(B.m, B.n, B.dense), Transpose(D.m, D.n, D.dense)))
+
 (***************************************************************************)
 (* emission                                                                 *)
 (***************************************************************************)
 J(Mx) == [mb |-> Mx.mb, nb |-> Mx.nb, bh |-> Mx.bh, bw |-> Mx.bw, rep |-> RepOf(Mx),
           nnz |-> Cardinality(Mx.pat), arrayless |-> Mx.arrayless]
 Emit == ph = "done" =>
-  PrintT(ToJson([fmt |-> Fmt, grp |-> Group, pal |-> Palette, op |-> call.op, an |-> call.an, ad |-> call.ad, self |-> call.self,
+  PrintT(ToJson([fmt |-> Fmt, grp |-> Group, pal |-> Palette, op |-> call.op, an |-> call.an, ad |-> call.ad, bn |-> call.bn, bd |-> call.bd,
+                 self |-> call.self, dirty |-> call.dirty,
                  allow |-> call.allow, eps |-> call.eps, s |-> call.s,
                  X |-> J(X), Y |-> J(Y), D |-> J(D), A |-> J(A), B |-> J(B),
                  outcome |-> out.outcome, XP |-> J(out.X), den |-> out.den,
